@@ -217,6 +217,8 @@ func extractNonce(presentation vc.VerifiablePresentation) (string, error) {
 var s2sNonceKey = []string{"s2s", "nonce"}
 
 // s2sNonceStore is used by the authorization server for replay prevention by keeping track of used nonces in the s2s flow
+// A presentation is accepted from (created - s2sMaxClockSkew) until (expires + s2sMaxClockSkew),
+// so a used nonce must be remembered for the maximum validity plus twice the clock skew.
 func (r Wrapper) s2sNonceStore() storage.SessionStore {
-	return r.storageEngine.GetSessionDatabase().GetStore(s2sMaxPresentationValidity+s2sMaxClockSkew, s2sNonceKey...)
+	return r.storageEngine.GetSessionDatabase().GetStore(s2sMaxPresentationValidity+2*s2sMaxClockSkew, s2sNonceKey...)
 }
